@@ -197,6 +197,31 @@ func afterUnsuccessful(res string, t Task, before Snapshot) string {
 	return "skip-after-" + res + ":" + t.Method + markerKept(t, before)
 }
 
+// what the task's dep does to the tree before the check of a normal / forced run
+func depsFiles(t Task, o Op, at int64, files []FileEnt) []FileEnt {
+	if t.DepSpec == "" || (o.Mode != "run" && o.Mode != "force") {
+		return files
+	}
+	content, ok := "", false
+	for _, f := range files {
+		if f.Path == t.DepSpec {
+			content, ok = f.Content, true
+		}
+	}
+	if !ok {
+		return files
+	}
+	out := []FileEnt{}
+	for _, f := range files {
+		if f.Path != t.DepDst {
+			out = append(out, f)
+		}
+	}
+	out = append(out, FileEnt{t.DepDst, content, at + 1})
+	sort.Slice(out, func(i, j int) bool { return out[i].Path < out[j].Path })
+	return out
+}
+
 func isAttempt(o Op, res string) bool {
 	if o.Mode != "run" && o.Mode != "force" {
 		return false
@@ -252,10 +277,12 @@ func Diagnose(proj []Task, init Snapshot, steps []Step) map[string]string {
 		o := st.Op
 		if o.Kind == "invoke" && o.Tid >= 0 && o.Tid < len(proj) {
 			t := proj[o.Tid]
-			fp := fingerprint(t, before.Files)
+			// the present fingerprint is the one of the tree the deps leave
+			files := depsFiles(t, o, st.At, before.Files)
+			fp := fingerprint(t, files)
 			key := fpKey(fp)
-			gens := gensExist(t, before.Files)
-			stat := statusOK(t, before.Files)
+			gens := gensExist(t, files)
+			stat := statusOK(t, files)
 			att := attempts[o.Tid]
 			// ---- C04 ----
 			if st.Res == "skipped" {
